@@ -21,6 +21,7 @@ Record crun := CR {
 Record ccase := CC {
   c_prefix : bytes;         (* st.prefix ("" or "p.") *)
   c_nidx : N;               (* 0: QueryStore without index; 1: index ia; 2: indexes ia, ib *)
+  c_lim : N;                (* BadgerDB's transaction limit: DB.MaxBatchCount() - 1 of the (small) database; 0 = not reached *)
   c_runs : list crun;
   c_rb_ok : bool;           (* RebuildIndexes returned nil *)
   c_rb_obs : obs;           (* database after RebuildIndexes *)
@@ -72,10 +73,12 @@ Fixpoint insert_all {A} (x : A) (l : list A) : list (list A) :=
 Fixpoint perms {A} (l : list A) : list (list A) :=
   match l with [] => [[]] | x :: r => flat_map (insert_all x) (perms r) end.
 (* the k-th order in which Init may have called OnChange for its seeds (Go map iteration) *)
+(* (only for seed sets of at most 3: larger ones are used without a QueryStore, where the order is immaterial) *)
+Definition small {A} (l : list A) : bool := Nat.leb (length l) 3.
 Definition variant (k : nat) (ops : list op) : list op :=
-  map (fun o => match o with Init s => Init (nth k (perms s) s) | _ => o end) ops.
+  map (fun o => match o with Init s => if small s then Init (nth k (perms s) s) else o | _ => o end) ops.
 Definition nvariants (ops : list op) : nat :=
-  fold_left (fun n o => match o with Init s => Nat.max n (length (perms s)) | _ => n end) ops 1%nat.
+  fold_left (fun n o => match o with Init s => if small s then Nat.max n (length (perms s)) else n | _ => n end) ops 1%nat.
 
 (* ---------- the states the model allows for a kill ---------- *)
 Definition is_ack (m : mstep) : bool := match m with SAck _ => true | _ => false end.
@@ -106,56 +109,65 @@ Definition kill_ok (pr : list mstep) (pt occ : N) (oks : list bool) (p m : nat) 
    else if pt =? 10 then (N.of_nat m =? occ)
    else true).
 
-Definition candidates (pr : list mstep) (pt occ : N) (oks : list bool) : list (nat * nat) :=
-  flat_map (fun p =>
-    flat_map (fun m => if kill_ok pr pt occ oks p m then [(p, m)] else [])
-             (seq 0 (S (count is_enq (firstn p pr)))))
-    (seq 0 (S (length pr))).
+(* position of the occ-th [SHit pt] in the program *)
+Fixpoint hit_pos (pt : N) (occ : nat) (pr : list mstep) (p : nat) : option nat :=
+  match pr with
+  | [] => None
+  | m :: r => if is_hit pt m then match occ with 1%nat => Some p | _ => hit_pos pt (pred occ) r (S p) end
+              else hit_pos pt occ r (S p)
+  end.
+(* [noqs]: no index exists, so the number of index tasks done is immaterial (all of them) *)
+Definition candidates (noqs : bool) (pr : list mstep) (pt occ : N) (oks : list bool) : list (nat * nat) :=
+  let ms p := let e := count is_enq (firstn p pr) in if noqs then [e] else seq 0 (S e) in
+  let at_p p := flat_map (fun m => if kill_ok pr pt occ oks p m then [(p, m)] else []) (ms p) in
+  if pt =? 0 then at_p (length pr)
+  else if pt <=? 8 then match hit_pos pt (N.to_nat occ) pr 0 with Some p => at_p p | None => [] end
+  else flat_map at_p (seq 0 (S (length pr))).
 
-Definition match_variant (g : cfg) (c0 : content) (r : crun) (ops : list op) : option content :=
-  let pr := compile c0 ops in
+Definition match_variant (g : cfg) (lim : nat) (c0 : content) (r : crun) (ops : list op) : option content :=
+  let pr := compile c0 (limit_ops lim c0 ops) in
   match find (fun pm => obs_eq (enc_content g (content_at g c0 pr (fst pm) (snd pm))) (r_obs r))
-             (candidates pr (r_pt r) (r_occ r) (r_oks r)) with
+             (candidates (r_noqs r) pr (r_pt r) (r_occ r) (r_oks r)) with
   | Some pm => Some (content_at g c0 pr (fst pm) (snd pm))
   | None => None
   end.
 Fixpoint first_some {A B} (f : A -> option B) (l : list A) : option B :=
   match l with [] => None | x :: r => match f x with Some y => Some y | None => first_some f r end end.
-Definition match_run (g0 : cfg) (c0 : content) (r : crun) : option content :=
+Definition match_run (g0 : cfg) (lim : nat) (c0 : content) (r : crun) : option content :=
   let g := run_cfg g0 r in
-  first_some (fun k => match_variant g c0 r (variant k (r_ops r))) (seq 0 (nvariants (r_ops r))).
+  first_some (fun k => match_variant g lim c0 r (variant k (r_ops r))) (seq 0 (nvariants (r_ops r))).
 
 (* hits of a clean lifetime *)
 Definition ev_hits (pt : N) (tr : list ev) : N :=
   N.of_nat (length (filter (fun e => match e with EHit q => q =? pt | _ => false end) tr)).
 Fixpoint nlookup (k : N) (l : list (N * N)) : N :=
   match l with [] => 0 | (k', v) :: r => if k =? k' then v else nlookup k r end.
-Definition hits_ok (g0 : cfg) (c0 : content) (r : crun) : bool :=
+Definition hits_ok (g0 : cfg) (lim : nat) (c0 : content) (r : crun) : bool :=
   let g := run_cfg g0 r in
   if negb (r_pt r =? 0) then true
-  else let pr := compile c0 (r_ops r) in
+  else let pr := compile c0 (limit_ops lim c0 (r_ops r)) in
        let tr := trace (exec g (repeat AClient (length pr) ++ repeat AIndex (length pr)) (MS pr [] [])) in
        forallb (fun pt => ev_hits pt tr =? nlookup pt (r_hits r))
                (if r_noqs r then [1;2;3;4;5;6;7;8] else [1;2;3;4;5;6;7;8;9;10]).
 
 (* field codes: 1 content after a lifetime is not allowed by the model  2 RebuildIndexes outcome
    3 content after RebuildIndexes  4 query result  5 crash-point hit counts of a clean lifetime *)
-Fixpoint check_runs (g : cfg) (c : content) (rs : list crun) : list N * option content :=
+Fixpoint check_runs (g : cfg) (lim : nat) (c : content) (rs : list crun) : list N * option content :=
   match rs with
   | [] => ([], Some c)
   | r :: rest =>
-      match match_run g c r with
+      match match_run g lim c r with
       | None => ([1], None)
-      | Some c' => let (l, o) := check_runs g c' rest in ((if hits_ok g c r then [] else [5]) ++ l, o)
+      | Some c' => let (l, o) := check_runs g lim c' rest in ((if hits_ok g lim c r then [] else [5]) ++ l, o)
       end
   end.
 Definition check_case (cs : ccase) : list N :=
   let g := case_cfg cs in
-  let (l, o) := check_runs g [] (c_runs cs) in
+  let (l, o) := check_runs g (N.to_nat (c_lim cs)) [] (c_runs cs) in
   l ++ match o with
        | None => []
        | Some c =>
-           match rebuild_indexes g c with
+           match rebuild_indexes_lim (N.to_nat (c_lim cs)) g c with
            | RbOk c' =>
                (if c_rb_ok cs then [] else [2]) ++
                (if obs_eq (enc_content g c') (c_rb_obs cs) then [] else [3]) ++
@@ -225,12 +237,28 @@ Fixpoint half_seeded (st : sstate) (ops : list op) (o : sstate) : bool :=
       end
   end.
 
-Definition viol_run (g : cfg) (inited : bool) (prev : obs) (r : crun) : list N :=
+(* the workload under BadgerDB's transaction limit, at the specification level: an Init whose
+   missing seeds + marker reach the limit must fail and change nothing *)
+Fixpoint spec_limit (lim : nat) (st : sstate) (ops : list op) : list op :=
+  match ops with
+  | [] => []
+  | o :: r =>
+      let o' := match o with
+                | Init s => if negb (Nat.eqb lim 0) && negb (sinit st) && valid_seeds s
+                               && Nat.leb lim (S (length (filter (fun iv => negb (isSomeV (sval st (fst iv)))) s)))
+                            then InitErr (lim - 1) else o
+                | _ => o
+                end in
+      o' :: spec_limit lim (spec_step st o') r
+  end.
+
+Definition viol_run (g : cfg) (lim : nat) (inited : bool) (prev : obs) (r : crun) : list N :=
   let a := length (r_oks r) in
-  let ops1 := firstn (S a) (r_ops r) in
   let u := dedup (flat_map op_ids (r_ops r)) in
   let s0 := SS (oval g prev) (omark g prev || inited) in
-  let sa := spec_run s0 (firstn a (r_ops r)) in
+  let lops := spec_limit lim s0 (r_ops r) in
+  let ops1 := firstn (S a) lops in
+  let sa := spec_run s0 (firstn a lops) in
   let sb := spec_run s0 ops1 in
   let o := ostate g (r_obs r) in
   let bad1 := existsb (fun i => negb (ovalue_eq (sval o i) (sval sa i)) && negb (ovalue_eq (sval o i) (sval sb i))) u
@@ -245,10 +273,10 @@ Definition viol_run (g : cfg) (inited : bool) (prev : obs) (r : crun) : list N :
   (if half_seeded s0 ops1 o
    then [4] else []).
 
-Fixpoint viol_runs (g : cfg) (inited : bool) (prev : obs) (rs : list crun) : list N :=
+Fixpoint viol_runs (g : cfg) (lim : nat) (inited : bool) (prev : obs) (rs : list crun) : list N :=
   match rs with
   | [] => []
-  | r :: rest => viol_run g inited prev r ++ viol_runs g (inited || acked_init (r_ops r) (r_oks r)) (r_obs r) rest
+  | r :: rest => viol_run g lim inited prev r ++ viol_runs g lim (inited || acked_init (r_ops r) (r_oks r)) (r_obs r) rest
   end.
 
 Definition wanted_entries (g : cfg) (u : list id) (o : obs) : list bytes :=
@@ -267,8 +295,10 @@ Definition viol_case (cs : ccase) : list N :=
   let g := case_cfg cs in
   let u := dedup (flat_map (fun r => flat_map op_ids (r_ops r)) (c_runs cs)) in
   let o := c_rb_obs cs in
-  viol_runs g false [] (c_runs cs) ++
-  (if c_rb_ok cs then [] else [5]) ++
+  let lim := N.to_nat (c_lim cs) in
+  viol_runs g lim false [] (c_runs cs) ++
+  (* an error is no claim about the indexes when the new entries cannot fit into one transaction *)
+  (if c_rb_ok cs || (negb (Nat.eqb lim 0) && Nat.leb lim (length (wanted_entries g u o))) then [] else [5]) ++
   (if c_rb_ok cs && negb (ids_seteq (wanted_entries g u o) (index_entries g o)) then [6] else []) ++
   (if c_rb_ok cs && negb (forallb (fun q =>
         ids_seteq (snd q)
